@@ -10,14 +10,15 @@ Proved here: the header map part (lookup, replacement and removal are case-insen
 entry per name), the Date arithmetic round trip for every instant (`date_roundtrip`: the civil
 fields the header shows are mapped back to the same second; the calendar fields are in range and
 the weekday is the right one), and the **mailbox grammar round trip**: for every
-mailbox whose address is `dot-atom@dot-atom` (`GoodAddr`: no quoted local part, no domain literal)
-and *every* display name, what `Display` writes is parsed back by the PEG transcription of the
+mailbox whose address is in `GoodAddr` (local part a dot-atom of the grammar or a quoted string, domain a
+dot-atom or a bracketed literal, accepted by `Address::new`) and *every* display name, what `Display` writes is parsed back by the PEG transcription of the
 grammar to an equal mailbox — the same address, and a name that normalises to the stored one
 (`mailbox_roundtrip`; the grammar returns the name with every run of blanks reduced to its first
 blank: `display_name_is_one_phrase`) — and a displayed list parses back to equal mailboxes in the
 same order (`mailbox_list_roundtrip`).  What is *not* proved and is tied by the correspondence check
-only: addresses outside the class (quoted local parts, domain literals); the check reports for every
-real mailbox whether its address is in the proved class.  The model's `show` and the PEG
+only: addresses outside the class (those whose characters the grammar's classes do not cover although
+`Address::new` accepts them); the check reports for every real mailbox whether its address is in the
+proved class.  The model's `show` and the PEG
 transcription are each compared with the code, and the property itself — display then parse gives an
 equal value — is evaluated on every generated value.
 -/
@@ -108,7 +109,8 @@ example : Date.render (Date.civil 784887151) = "Tue, 15 Nov 1994 08:12:31 +0000"
 /-! ## the mailbox grammar -/
 open LV.Mailbox LV.PegProof in
 /-- **Display then parse returns an equal mailbox, whatever the name.** For every mailbox whose address is in the
-    class (`local@domain`, both sides dot-atoms of the grammar, accepted by `Address::new`): `Display` does not fail,
+    class (`local@domain`, the local part a dot-atom or a quoted string, the domain a dot-atom or a literal, accepted by
+    `Address::new`): `Display` does not fail,
     and `FromStr` (the grammar, then `Address::new` on the two parts) reads the text back as a mailbox with exactly
     that address and a name equal to the stored one up to `normName` (surrounding white space, the length of runs of
     blanks, an empty name = no name).  The name is arbitrary: any characters, including quotes, backslashes, commas,
@@ -144,6 +146,14 @@ open LV.Mailbox LV.PegProof in
 /-- the decidable form of the class is sound: what the correspondence check counts as "in the class" is -/
 theorem address_class_sound (e : Address.Env) (u d : List Char) (h : addrClassB u d = true)
     (hnew : Address.new e u d = .ok ⟨u, d⟩) : GoodAddr e (u ++ '@' :: d) := addrClassB_sound e u d h hnew
+
+open LV.Mailbox LV.PegProof LV.Peg in
+/-- non-vacuity: a quoted local part at an address literal is in the class, and the round trip evaluated on it -/
+example :
+    let e : Address.Env := ⟨fun c => isAlpha c || isDigit c, fun _ => none, fun s => s == ['1', '.', '2', '.', '3', '.', '4']⟩
+    let a : List Char := ['"', 'a', ' ', '\\', '"', 'b', '"', '@', '[', '1', '.', '2', '.', '3', '.', '4', ']']
+    GoodAddr e a ∧ (show1 ⟨some ['N', ',', ' ', 'M'], a⟩).bind (parse1 e) = some ⟨some ['N', ',', ' ', 'M'], a⟩ :=
+  ⟨addrClassB_sound _ ['"', 'a', ' ', '\\', '"', 'b', '"'] ['[', '1', '.', '2', '.', '3', '.', '4', ']'] (by decide) (by rfl), by decide⟩
 
 open LV.Mailbox LV.PegProof LV.Peg in
 /-- non-vacuity: a mailbox in the class with a name that needs quoting; the round trip evaluated -/
